@@ -107,15 +107,16 @@ Variable tt : N.
 Definition target_ok (f : field) : bool :=
   match ftargets f with [] => true | ts => existsb (N.eqb tt) ts end.
 
-Fixpoint map_res {A B} (f : A -> res B) (l : list A) : res (list B) :=
-  match l with
-  | [] => Ok []
-  | a :: r =>
-    match f a with
-    | Err e => Err e
-    | Ok b => match map_res f r with Err e => Err e | Ok bs => Ok (b :: bs) end
-    end
-  end.
+Definition map_res {A B} (f : A -> res B) : list A -> res (list B) :=
+  fix go (l : list A) : res (list B) :=
+    match l with
+    | [] => Ok []
+    | a :: r =>
+      match f a with
+      | Err e => Err e
+      | Ok b => match go r with Err e => Err e | Ok bs => Ok (b :: bs) end
+      end
+    end.
 
 (* the element values one occurrence of a field contributes *)
 Definition spec_values_with (svf : field -> oval -> res val) (fld : field) (v : oval) : res (list val) :=
@@ -268,3 +269,16 @@ Definition schema_wf (sch : schema) : bool :=
 Definition field_explicit (f : field) : bool := negb (fimplicit f).
 Definition schema_explicit (sch : schema) : bool :=
   forallb (fun d => forallb field_explicit (mfields d)) (smsgs sch) && forallb (fun x => field_explicit (xfield x)) (sexts sch).
+
+(* ------------------------------------------------------------------ the implementation against the specification *)
+(* same value, or both reject (the error class is not part of the property) *)
+Definition spec_chk (c : opt_case) : bool :=
+  match c with
+  | OC sch tt T stmts os _ _ =>
+    schema_wf sch &&
+    match protoc_interpret sch tt T [] stmts, os with
+    | Ok m, ObsOk tree idx => mval_eqb (wire sch T m) tree && match idx with [] => true | _ => false end
+    | Err _, (ObsErr _ | ObsPanic | ObsOther) => true
+    | _, _ => false
+    end
+  end.
